@@ -422,10 +422,6 @@ def dprint_dec(rep, mod):
              % (ph.bits, N, room), fact={'digits': N, 'room': room})
 
 
-def ext_nop(interp, st, i, args):
-    return [(st, None)]
-
-
 def seq_hook(names):
     """call hook recording calls to the named functions: ghost n (count), c<k>_f (index into names),
     c<k>_a<j> (integer argument forms)"""
